@@ -356,3 +356,42 @@ class AsyncGate:
             if not fut.done():
                 fut.set_result(None)
         return False
+
+
+# ------------------------------------------------- statement-level yields
+_LINE_TOOL = 4
+
+
+def enable_lines(sched, files, tool=_LINE_TOOL):
+    """Make every statement start in the given source files a yield point of
+    the thread scheduler (sys.monitoring LINE events; actors only)."""
+    import sys
+    mon = sys.monitoring
+    files = set(files)
+
+    def on_line(code, line):
+        if code.co_filename not in files:
+            return mon.DISABLE
+        if sched.me() is None:
+            return None
+        sched.yield_point('L%d' % line)
+        return None
+    try:
+        mon.use_tool_id(tool, 'verif-lines')
+    except ValueError:
+        pass
+    mon.register_callback(tool, mon.events.LINE, on_line)
+    mon.set_events(tool, mon.events.LINE)
+    # locations disabled by an earlier use (other file set) fire again
+    mon.restart_events()
+
+
+def disable_lines(tool=_LINE_TOOL):
+    import sys
+    mon = sys.monitoring
+    try:
+        mon.set_events(tool, 0)
+        mon.register_callback(tool, mon.events.LINE, None)
+        mon.free_tool_id(tool)
+    except Exception:
+        pass
